@@ -31,12 +31,19 @@ RULE = ("stacks of 1-3 sibling scopes (parentless nodes / Workflow children / ch
         "cyclic data (self edge, back edge -- also outside the target's reach), hand-made ran->run, "
         "ran->accumulate_and_run and failed->run/accumulate_and_run connections in connection order, starting nodes, automate flag, executor flags, "
         "one failing node (every node of the would-be executed set in the thorough tier), already-failed nodes / "
+        "parents; HISTORIES: the same pull 2-3 times with unchanged inputs and uncached observers wired to the target "
+        "and to the enclosing macros (by hand, or by automation after a run of the Workflow root); "
         "parents, permuted labels; EVERY node of the target scope as target, with and without parent scopes. "
         "Non-trivial = the closure has at least two nodes or the pull is refused; distinct = distinct case JSON")
 TRUSTED = ["the iteration order of Python sets (closure) is not predicted: connection lists are compared as sorted "
            "sets, except in corpus cases where the order is independent of it",
            "temporary labels label+str(id) sort like the original labels (sibling labels of equal length, distinct)"]
-ASSUMPTIONS = ["fresh nodes, one pull per case (no cache hit); every node is triggered at most once during the pull",
+ASSUMPTIONS = ["the Coq model covers fresh nodes and the FIRST pull of a case (no cache hit; every node triggered at most "
+               "once); repeated pulls of the same target with unchanged inputs (cache hits of the target, its "
+               "upstream and the macros it is pulled through) and pulls after a run of the Workflow root are "
+               "checked by the oracle only: nothing outside the closure may be called on ANY pull of the history "
+               "(uncached observer nodes hang off the pulled node and off every enclosing macro), restoration, "
+               "outcome and value hold for every pull",
                "siblings of enclosing composites are plain function nodes; the target is a function node",
                "data values are not modelled in Coq (the oracle checks the returned value against a plain-Python "
                "evaluation of the closure)"]
@@ -148,6 +155,8 @@ def build(case):
             nodes[i].executor = (ThreadPoolExecutor, (), {})
         for i in L["failed"]:
             nodes[i].failed = True
+        for i in L.get("nocache", []):
+            nodes[i].use_cache = False      # an observer: really executes whenever it is triggered
     return scopes
 
 
@@ -203,47 +212,81 @@ def run_impl(case):
     if _HANGS[0] >= 6:      # the library spins (only ever seen on broken trees): do not spend seconds on every case
         return ["BudgetError", [], [], [], "skipped after repeated hangs"]
     obs = _run_once(case, 3)
-    if obs[0] == "BudgetError" and len(obs[1]) <= BUDGET:
+    if _budget(obs) and len(obs[1]) <= BUDGET:
         obs = _run_once(case, 30)       # a loaded machine is not a hang: once more with a generous time budget
-    if obs[0] == "BudgetError":
+    if _budget(obs):
         _HANGS[0] += 1
     return obs
 
 
+def _budget(obs):
+    return obs[0] == "BudgetError" or (len(obs) == 6 and any(o[0] == "BudgetError" for o in obs[5]))
+
+
 def _run_once(case, seconds):
+    """[res, log, after, before, ret] of the first pull; a history (case["repeat"] > 1: the same pull again, inputs
+    unchanged) appends the list of the same five observations for every further pull.  case["prerun"]: the
+    (Workflow) root is run once before the first pull, so that everything is up to date and automation has wired
+    the execution signals."""
     global BADTAGS
     import signal
     LOG.clear()
     BADTAGS = {f"{lv}.{i}" for lv, L in enumerate(case["levels"]) for i in L["bad"]}
     scopes = build(case)
     ordered = bool(case.get("ordered"))
-    before = snapshot(case, scopes, ordered)
+    sort_start = bool(case.get("prerun"))
     target = scopes[0][1][case["target"]]
-    ret = None
+    pulls = []
     old_handler = signal.signal(signal.SIGALRM, _alarm)
-    signal.alarm(seconds)
     try:
-        if case["parents"] and case.get("call", False):
-            r = target()
-        else:
-            r = target.pull(run_parent_trees_too=bool(case["parents"]))
-        res = "ok"
-        ret = r if isinstance(r, int) else repr(r)[:40]
-    except BaseException as e:
-        if isinstance(e, (KeyboardInterrupt, SystemExit)):
-            raise
-        res = type(e).__name__
+        if case.get("prerun"):
+            signal.alarm(seconds)
+            try:
+                scopes[-1][0].run()
+            finally:
+                signal.alarm(0)
+        for _ in range(max(1, int(case.get("repeat", 1)))):
+            LOG.clear()
+            before = _snap(case, scopes, ordered, sort_start)
+            ret = None
+            signal.alarm(seconds)
+            try:
+                if case["parents"] and case.get("call", False):
+                    r = target()
+                else:
+                    r = target.pull(run_parent_trees_too=bool(case["parents"]))
+                res = "ok"
+                ret = r if isinstance(r, int) else repr(r)[:40]
+            except BaseException as e:
+                if isinstance(e, (KeyboardInterrupt, SystemExit)):
+                    raise
+                res = type(e).__name__
+            finally:
+                signal.alarm(0)
+            log = [[int(t.split(".")[0]), int(t.split(".")[1])] for t in LOG]
+            after = _snap(case, scopes, ordered, sort_start)
+            pulls.append([res, log, after, before, ret])
+            if res == "BudgetError":
+                break
+    except BudgetError:
+        pulls.append(["BudgetError", [], [], [], None])
     finally:
         signal.alarm(0)
         signal.signal(signal.SIGALRM, old_handler)
         BADTAGS = set()
-    log = [[int(t.split(".")[0]), int(t.split(".")[1])] for t in LOG]
-    after = snapshot(case, scopes, ordered)
-    return [res, log, after, before, ret]
+    return pulls[0] + ([pulls[1:]] if len(pulls) > 1 or case.get("repeat", 1) > 1 else [])
+
+
+def _snap(case, scopes, ordered, sort_start):
+    sn = snapshot(case, scopes, ordered)
+    if sort_start:
+        for lvl in sn:
+            lvl[1] = sorted(lvl[1])
+    return sn
 
 
 def model_view(case, obs):
-    return obs[:3] if isinstance(obs, list) and len(obs) == 5 else obs
+    return obs[:3] if isinstance(obs, list) and len(obs) in (5, 6) else obs
 
 
 # ---- model term --------------------------------------------------------------------------------
@@ -296,8 +339,9 @@ def modelled(case):
 
 
 def model_term(case):
-    if not modelled(case):
-        return None
+    if not modelled(case) or case.get("prerun"):
+        return None         # a history after a root run starts from cached nodes: oracle only
+    # of a history (repeat > 1) the model covers the FIRST pull; the later ones (cache hits) are oracle only
     levels = case["levels"]
     st = cl(f"({scope_term(L)}, {cn(case['target'] if lv == 0 else L['comp'])})" for lv, L in enumerate(levels))
     sizes = _natl(L["n"] for L in levels)
@@ -390,7 +434,7 @@ def expectation(case):
 
 def reference_value(case):
     """plain-Python value of the target when everything the property wants has run (fresh graph)"""
-    pulled = set(pulled_levels(case))
+    pulled = set(range(len(case["levels"]))) if case.get("prerun") else set(pulled_levels(case))
     memo = {}
 
     def first(L, lv, v, ch):
@@ -440,51 +484,71 @@ def _restored(case, before, after):
 
 
 def oracle(case, obs):
-    if not (isinstance(obs, list) and len(obs) == 5):
+    if not (isinstance(obs, list) and len(obs) in (5, 6)):
         return f"driver: unexpected observation {obs!r}"[:300]
+    v = _oracle_pull(case, obs[:5], first=not case.get("prerun"), which=1)
+    if v:
+        return v
+    for n, o in enumerate(obs[5] if len(obs) == 6 else []):
+        v = _oracle_pull(case, o, first=False, which=n + 2)
+        if v:
+            return v
+    return None
+
+
+def _oracle_pull(case, obs, first, which):
+    """the property on ONE pull of the history; on a later pull (or after a root run) up-to-date nodes need not be
+    called again, everything else -- nothing outside the closure, order, restoration, outcome, value -- holds
+    for every pull"""
     res, log, after, before, ret = obs
+    tag = "" if which == 1 else f" (pull #{which} of the same target, inputs unchanged)"
     if res == "BudgetError":
-        return "hang: the pull did not finish within its call/time budget"
+        return "hang: the pull did not finish within its call/time budget" + tag
     ex = expectation(case)
     allowed = set(ex["allowed"])
     entries = [tuple(e) for e in log]
     extra = [e for e in entries if e not in allowed]
     if extra:
         return (f"ran-outside-closure: {extra} executed, the upstream closure is {sorted(allowed)}; "
-                f"log {entries}")
+                f"log {entries}" + tag)
     if len(set(entries)) != len(entries):
-        return f"ran-twice: log {entries}"
+        return f"ran-twice: log {entries}" + tag
     pos = {e: i for i, e in enumerate(entries)}
     for lv, L in enumerate(case["levels"]):
         for (u, v, ch) in L["data"]:
-            if (lv, v) in pos and ((lv, u) not in pos or pos[(lv, u)] > pos[(lv, v)]):
-                return f"dependency-order: level {lv}: {v} ran without/before its upstream {u}; log {entries}"
+            if (lv, v) in pos and (lv, u) in pos and pos[(lv, u)] > pos[(lv, v)]:
+                return f"dependency-order: level {lv}: {v} ran before its upstream {u}; log {entries}" + tag
+            if first and (lv, v) in pos and (lv, u) not in pos:
+                return f"dependency-order: level {lv}: {v} ran without its upstream {u}; log {entries}"
             if (lv, v) in pos and (u in L["bad"] or u in L["failed"]):
-                return f"ran-after-failed-upstream: level {lv}: {v} ran although its upstream {u} failed; log {entries}"
+                return (f"ran-after-failed-upstream: level {lv}: {v} ran although its upstream {u} failed; "
+                        f"log {entries}" + tag)
     for a, b in zip(entries, entries[1:]):
         if a[0] < b[0]:
-            return f"dependency-order: an inner scope ran before its enclosing scope's upstream nodes; log {entries}"
+            return (f"dependency-order: an inner scope ran before its enclosing scope's upstream nodes; "
+                    f"log {entries}" + tag)
     r = _restored(case, before, after)
     if r:
-        return r
+        return r + tag
     if ex["refusal"]:
         if res != ex["refusal"]:
-            return f"refusal: expected {ex['refusal']}, got {res}"
+            return f"refusal: expected {ex['refusal']}, got {res}" + tag
         return None
     if ex["must_fail"]:
         if res == "ok":
-            return "failure-swallowed: a node of the closure fails but the pull returned normally"
+            return "failure-swallowed: a node of the closure fails but the pull returned normally" + tag
         return None
     if res != "ok":
-        return f"unexpected-error: {res} although nothing in the closure fails; log {entries}"
-    missing = sorted(allowed - set(entries))
-    if missing:
-        return f"closure-not-run: {missing} not executed; log {entries}"
-    if entries[-1] != (0, case["target"]):
-        return f"target-not-last: log {entries}"
+        return f"unexpected-error: {res} although nothing in the closure fails; log {entries}" + tag
+    if first:
+        missing = sorted(allowed - set(entries))
+        if missing:
+            return f"closure-not-run: {missing} not executed; log {entries}"
+        if entries[-1] != (0, case["target"]):
+            return f"target-not-last: log {entries}"
     ref = reference_value(case)
     if ret != ref:
-        return f"wrong-value: returned {ret!r}, plain evaluation of the closure gives {ref}"
+        return f"wrong-value: returned {ret!r}, plain evaluation of the closure gives {ref}" + tag
     return None
 
 
@@ -700,6 +764,72 @@ def variants(rng, levels, target, parents, thorough):
     return out
 
 
+def _add_observer(rng, L, lv, head, wired):
+    """append an uncached node hanging off `head`: data-downstream of it or an unrelated sibling"""
+    i = L["n"]
+    L["n"] += 1
+    L["labels"].append(f"{'nmk'[lv]}{i}")
+    if rng.random() < 0.6:
+        L["data"].append([head, i, rng.randrange(3)])
+    if wired:
+        L["sig"].append([head, i, rng.choice(["run", "run", "acc"])])
+    L.setdefault("nocache", []).append(i)
+    return i
+
+
+def _dag_wire(L):
+    """what automation would wire: one all-of connection per data edge, sources as starting nodes"""
+    pairs = []
+    for u, v, _ in L["data"]:
+        if [u, v, "acc"] not in pairs:
+            pairs.append([u, v, "acc"])
+    L["sig"] = pairs
+    L["start"] = [v for v in range(L["n"]) if not any(w == v for _, w, _ in L["data"])]
+
+
+def history_variants(rng, levels, target, parents):
+    """the same pull 2-3 times with unchanged inputs, uncached observers hanging off the pulled node and off the
+    enclosing macros: by hand-made connections, or -- after a run of the Workflow root -- by automation"""
+    out = []
+
+    def cp(**kw):
+        c = {"levels": json.loads(json.dumps(levels)), "target": target, "parents": parents}
+        c.update(kw)
+        return c
+    c = cp(repeat=rng.choice([2, 2, 3]))
+    for lv, L in enumerate(c["levels"]):
+        head = target if lv == 0 else L["comp"]
+        for _ in range(rng.choice([1, 1, 2])):
+            if L["n"] < 9:
+                _add_observer(rng, L, lv, head, True)
+    if parents and rng.random() < 0.3:
+        c["call"] = True
+    out.append(c)
+    if rng.random() < 0.3:      # ... and an upstream node that fails every time
+        ex = expectation(c)
+        ups = [e for e in ex["allowed"] if e != (0, target)]
+        if ups:
+            d = json.loads(json.dumps(c))
+            lv, v = rng.choice(ups)
+            d["levels"][lv]["bad"] = [v]
+            out.append(d)
+    if levels[-1]["par"] == "wf":
+        c = cp(repeat=rng.choice([1, 2, 2, 3]), prerun=True)
+        for lv, L in enumerate(c["levels"]):
+            head = target if lv == 0 else L["comp"]
+            if L["n"] < 9:
+                i = _add_observer(rng, L, lv, head, False)
+                if not any(u == head and v == i for u, v, _ in L["data"]):
+                    L["data"].append([head, i, 0])
+            L["automate"] = True
+            if L["par"] == "wf":
+                L["sig"], L["start"] = [], []
+            else:
+                _dag_wire(L)
+        out.append(c)
+    return out
+
+
 def generate(ctx):
     rng = ctx.rng
     n_graphs = ctx.n(75, 600)
@@ -711,7 +841,7 @@ def generate(ctx):
         for target in range(n0):
             flags = [False, True] if (len(levels) > 1 or rng.random() < 0.3) else [rng.random() < 0.5]
             for parents in flags:
-                for c in variants(rng, levels, target, parents, thorough):
+                for c in variants(rng, levels, target, parents, thorough) + history_variants(rng, levels, target, parents):
                     k = json.dumps(c, sort_keys=True)
                     if k not in seen:
                         seen.add(k)
@@ -765,7 +895,7 @@ def distribution(results):
          "closure_sizes": {}, "automate_left_off_after_failure": 0, "signal_order_changed": 0,
          "parent_left_failed": 0, "not_modelled": 0}
     for c, enc, v, o in results:
-        if not (isinstance(o, list) and len(o) == 5):
+        if not (isinstance(o, list) and len(o) in (5, 6)):
             continue
         d["depth"][len(c["levels"])] = d["depth"].get(len(c["levels"]), 0) + 1
         t = c["levels"][-1]["par"]
